@@ -302,7 +302,7 @@ def run_case_inner(body, spec, complex_=False, validate=False, max_paths=2000, s
                 res.canaries_ok += 1
             else:
                 res.harness_errors.append(f"canary {name} not falsifiable ({r})")
-        if validate and S.lhs_terms:
+        if validate and S.lhs_terms and not res.violations:
             _validate_backend(res, body, spec, complex_, c, S, seed)
         if want_sample and res.sample is None and S.obl:
             n, f = S.obl[len(S.obl) // 2]
